@@ -1,5 +1,6 @@
 import IstioModel.Common.Wire
 import IstioModel.C02.Model
+import IstioModel.C02.Queue
 
 /-! Line-protocol driver for C02 (stream `merge`; see harness/c02).  Objects are declared by `set`,
     `rsn`, `req` lines (ids are positions in the per-type stores, in declaration order) and then
@@ -45,7 +46,8 @@ structure DState where
   heap : Heap := {}
   last : Option Ref := none      -- result of the last merge / cmerge
   lastR : Option Ref := none     -- result of the last rcmerge
-  deriving Inhabited
+  nconn : Nat := 0               -- connections of a `queue` case are 0 .. nconn-1
+  q : QState := {}               -- the queue (its heap field is the authoritative heap of a queue case)
 
 /-- `nil`, `last`, or an index below `n`. -/
 def parseRef (n : Nat) (last : Option Ref) (t : String) : Option (Option Ref) :=
@@ -55,6 +57,10 @@ def parseRef (n : Nat) (last : Option Ref) (t : String) : Option (Option Ref) :=
     | some i => if i < n then some (some i) else none
     | none => none
 
+/-- `nil` or an index below `n` (no `last`). -/
+def parseRefDecl (n : Nat) (t : String) : Option (Option Ref) :=
+  if t == "last" then none else parseRef n none t
+
 def parseOptNat (t : String) : Option (Option Nat) :=
   if t == "nil" then some none else (t.toNat?).map some
 
@@ -63,7 +69,6 @@ def parseCounts (t : String) : List Nat :=
 
 def stepMerge (s : DState) (toks : List String) : DState × String :=
   match toks with
-  | "case" :: _ => ({}, "ok")
   | ["set", kind, elems] =>
     let l := decList elems
     let h := s.heap
@@ -77,8 +82,8 @@ def stepMerge (s : DState) (toks : List String) : DState × String :=
     ({ s with heap := { h with rsns := h.rsns ++ [m] } }, s!"r{h.rsns.length}")
   | ["req", cfg, adr, wp, rsn, push, start, delta, forced] =>
     let h := s.heap
-    match parseRef h.cfgs.length none cfg, parseRef h.adrs.length none adr, parseRef h.wpss.length none wp,
-          parseRef h.rsns.length none rsn, parseOptNat push, start.toNat?, delta.toNat? with
+    match parseRefDecl h.cfgs.length cfg, parseRefDecl h.adrs.length adr, parseRefDecl h.wpss.length wp,
+          parseRefDecl h.rsns.length rsn, parseOptNat push, start.toNat?, delta.toNat? with
     | some c, some a, some w, some r, some p, some st, some d =>
       let R : ReqObj := { configs := c, addrs := a, wps := w, reason := r, push := p, start := st, delta := d,
                           forced := tokBool forced }
@@ -106,6 +111,54 @@ def stepMerge (s : DState) (toks : List String) : DState × String :=
   | ["dump"] => (s, showHeap s.heap)
   | _ => (s, "bad-op")
 
-def step (s : DState) (toks : List String) : DState × String := stepMerge s toks
+/-! ### stream `queue` -/
+
+def showCMap (n : Nat) (m : CMap) : String :=
+  let parts := (List.range n).filterMap (fun c => (m c).map (fun r => s!"{c}:{showRef "q" r}"))
+  if parts.isEmpty then "-" else ";".intercalate parts
+
+def showQ (n : Nat) (s : QState) : String :=
+  let q := if s.queue.isEmpty then "-" else ",".intercalate (s.queue.map toString)
+  s!"q={q} pend={showCMap n s.pending} proc={showCMap n s.processing} down={boolTok s.down}"
+
+def parseConn (n : Nat) (t : String) : Option Conn :=
+  match t.toNat? with
+  | some c => if c < n then some c else none
+  | none => none
+
+/-- Queue operations act on `s.q` whose heap is kept equal to `s.heap`. -/
+def stepQueue (s : DState) (toks : List String) : DState × String :=
+  match toks with
+  | ["enq", c, r] =>
+    match parseConn s.nconn c, parseRefDecl s.heap.reqs.length r with
+    | some c, some r =>
+      let q' := enqueue { s.q with heap := s.heap } c r
+      ({ s with q := q', heap := q'.heap }, s!"{showQ s.nconn q'} new {showNew s.heap q'.heap}")
+    | _, _ => (s, "bad-op")
+  | ["deq"] =>
+    let q0 := { s.q with heap := s.heap }
+    let q' := dequeueState q0
+    let res := match dequeueRes q0 with
+      | .blocked => "blocked"
+      | .shutdown => "shutdown"
+      | .got c r => s!"got {c} {showRef "q" r}"
+    ({ s with q := q' }, s!"{res} {showQ s.nconn q'}")
+  | ["done", c] =>
+    match parseConn s.nconn c with
+    | some c =>
+      let q' := markDone { s.q with heap := s.heap } c
+      ({ s with q := q' }, showQ s.nconn q')
+    | none => (s, "bad-op")
+  | ["shut"] =>
+    let q' := shutDown { s.q with heap := s.heap }
+    ({ s with q := q' }, showQ s.nconn q')
+  | ["pending"] => (s, toString (pendingCount s.q))
+  | _ => stepMerge s toks
+
+def step (s : DState) (toks : List String) : DState × String :=
+  match toks with
+  | "case" :: _ :: "queue" :: n :: _ => ({ nconn := n.toNat?.getD 0 }, "ok")
+  | "case" :: _ => ({}, "ok")
+  | _ => stepQueue s toks
 
 end IstioModel.C02
